@@ -157,34 +157,77 @@ func (t *translator) parsePkg(name string, files ...string) {
 // ---- package level big.Int variables ------------------------------------
 
 func (t *translator) constBig(p *pkgInfo, e ast.Expr) *big.Int {
+	v := t.tryConstBig(p, e)
+	if v == nil {
+		t.fail(e, "cannot evaluate package level initialiser %s", t.str(e))
+	}
+	return v
+}
+
+// preregister gives every evaluable package level *big.Int variable of the
+// translated packages a cell, in sorted order, so that cell numbers do not
+// depend on which bodies use them.
+func (t *translator) preregister() {
+	for _, pn := range []string{"math", "vm"} {
+		p := t.pkgs[pn]
+		var names []string
+		for n := range p.globals {
+			names = append(names, n)
+		}
+		sort.Strings(names)
+		for _, n := range names {
+			if v := t.tryConstBig(p, p.globals[n]); v != nil {
+				key := p.name + "." + n
+				t.globIdx[key] = len(t.globVal)
+				t.globVal = append(t.globVal, v)
+				t.globNam = append(t.globNam, key)
+			}
+		}
+	}
+}
+
+func (t *translator) tryConstBig(p *pkgInfo, e ast.Expr) *big.Int {
 	switch e := e.(type) {
 	case *ast.ParenExpr:
-		return t.constBig(p, e.X)
+		return t.tryConstBig(p, e.X)
 	case *ast.Ident:
 		init, ok := p.globals[e.Name]
 		if !ok {
-			t.fail(e, "initialiser refers to unknown variable %s", e.Name)
+			return nil
 		}
-		return t.constBig(p, init)
+		return t.tryConstBig(p, init)
 	case *ast.CallExpr:
 		fn := t.str(e.Fun)
 		switch {
 		case fn == "new" && len(e.Args) == 1 && t.str(e.Args[0]) == "big.Int":
 			return new(big.Int)
 		case fn == "big.NewInt" && len(e.Args) == 1:
-			return big.NewInt(t.constInt(e.Args[0]))
+			if k, ok := t.tryConstInt(e.Args[0]); ok {
+				return big.NewInt(k)
+			}
+			return nil
 		case (fn == "BigPow" || fn == "math.BigPow") && len(e.Args) == 2:
 			// fingerprinted: r := big.NewInt(a); return r.Exp(r, big.NewInt(b), nil)
-			a, b := t.constInt(e.Args[0]), t.constInt(e.Args[1])
+			a, ok1 := t.tryConstInt(e.Args[0])
+			b, ok2 := t.tryConstInt(e.Args[1])
+			if !ok1 || !ok2 {
+				return nil
+			}
 			r := big.NewInt(a)
 			return r.Exp(r, big.NewInt(b), nil)
 		}
 		if sel, ok := e.Fun.(*ast.SelectorExpr); ok {
-			recv := t.constBig(p, sel.X)
-			_ = recv
+			if _, isPkg := isPkgIdent(sel.X, "big", "math", "common", "errors", "fmt"); isPkg {
+				return nil
+			}
+			if t.tryConstBig(p, sel.X) == nil {
+				return nil
+			}
 			args := make([]*big.Int, len(e.Args))
 			for i, a := range e.Args {
-				args[i] = t.constBig(p, a)
+				if args[i] = t.tryConstBig(p, a); args[i] == nil {
+					return nil
+				}
 			}
 			switch {
 			case sel.Sel.Name == "Sub" && len(args) == 2:
@@ -196,19 +239,17 @@ func (t *translator) constBig(p *pkgInfo, e ast.Expr) *big.Int {
 			}
 		}
 	}
-	t.fail(e, "cannot evaluate package level initialiser %s", t.str(e))
 	return nil
 }
 
-func (t *translator) constInt(e ast.Expr) int64 {
+func (t *translator) tryConstInt(e ast.Expr) (int64, bool) {
 	if bl, ok := e.(*ast.BasicLit); ok && bl.Kind == token.INT {
 		v, err := strconv.ParseInt(bl.Value, 0, 64)
 		if err == nil {
-			return v
+			return v, true
 		}
 	}
-	t.fail(e, "integer literal expected, got %s", t.str(e))
-	return 0
+	return 0, false
 }
 
 func (t *translator) global(p *pkgInfo, name string, at ast.Node) int {
@@ -874,6 +915,7 @@ func (t *translator) opBody(name string) string {
 	t.pkg = t.pkgs["vm"]
 	t.scopes = nil
 	t.defers = nil
+	t.nextVar = 0
 	var names []string
 	for _, f := range fd.Type.Params.List {
 		for _, n := range f.Names {
@@ -929,6 +971,7 @@ func newTranslator(root string) *translator {
 	t.parsePkg("vm", filepath.Join(root, "core/vm/instructions.go"))
 	t.parsePkg("math", filepath.Join(root, "common/math/big.go"))
 	t.parsePkg("common", filepath.Join(root, "common/big.go"))
+	t.preregister()
 	return t
 }
 
